@@ -231,6 +231,18 @@ func c13(ctx *Ctx) (*Outcome, error) {
 		g := sg.NewGen(r, o)
 		root := g.Root()
 		root.ID = "https://example.com/spell"
+		// the id with and without the empty fragment that draft-04 documents carry, the mapping option written with and
+		// without it: whatever the tool makes of the four combinations, it makes the same of them for `id` and `$id`
+		idKey := "https://example.com/spell"
+		switch i % 7 {
+		case 2:
+			root.ID += "#"
+			idKey += "#"
+		case 3:
+			root.ID += "#"
+		case 5:
+			idKey += "#"
+		}
 		// the declared draft is the same in every spelling of one schema; what the spellings mean must not depend on it
 		root.Version = []string{"", "http://json-schema.org/draft-04/schema#", "http://json-schema.org/draft-06/schema#", "http://json-schema.org/draft-07/schema#",
 			"https://json-schema.org/draft/2019-09/schema", "https://json-schema.org/draft/2020-12/schema"}[i%6]
@@ -283,7 +295,7 @@ func c13(ctx *Ctx) (*Outcome, error) {
 		if i%5 == 4 {
 			// a "type library": the root carries nothing but an id and definitions (also reached through an external $ref
 			// is not needed: the root document itself shows whether the two definition spellings are treated alike)
-			lib := &sg.Schema{ID: "https://example.com/spell", Version: root.Version, Defs: root.Defs}
+			lib := &sg.Schema{ID: root.ID, Version: root.Version, Defs: root.Defs}
 			if len(lib.Defs) == 0 {
 				lib.Defs = []sg.Prop{{Name: "Thing", S: &sg.Schema{Types: []string{"object"}, Props: []sg.Prop{{Name: "n", S: &sg.Schema{Types: []string{"integer"}}}}}}}
 			}
@@ -320,7 +332,11 @@ func c13(ctx *Ctx) (*Outcome, error) {
 			}
 		}
 		// the output must depend on the id, so that a lost id spelling is visible
-		j := &job{root: root, lib: lib, libPath: libPath, opts: append(RandArgs(r, nil), "--schema-root-type", "https://example.com/spell=SpellRoot")}
+		j := &job{root: root, lib: lib, libPath: libPath, opts: append(RandArgs(r, nil), "--schema-root-type", idKey+"=SpellRoot")}
+		if i%7 == 3 || i%7 == 5 || i%14 == 2 {
+			// the other two mapping options under the same key
+			j.opts = append(j.opts, "--schema-package", idKey+"=example.com/mod/spellpkg", "--schema-output", idKey+"=spellpkg/spell.go")
+		}
 		// base spelling first, then a sample of combinations (thorough: more)
 		j.sps = append(j.sps, spelling{format: "json", defs: "$defs", ptr: "#/$defs/"})
 		k := ctx.N(7, 15)
